@@ -733,6 +733,82 @@ scenarios:
 	res.Eval(vkit.JSON(c), true)
 }
 
+// grpcWKTCase: methods whose response type is a protobuf well-known type (Empty, Timestamp,
+// Duration, Struct, StringValue): a successful answer of such a method is an answer like any
+// other — the call is reported and the run goes on with the next call.
+func grpcWKTCase(res *vkit.Result, c Case) {
+	tgt, err := vkit.NewGRPCTarget()
+	if err != nil {
+		res.Inconclusive(true, "grpc target: %v", err)
+		return
+	}
+	defer tgt.Close()
+	methods := []string{"Ping", "Now", "Took", "Info", "Name"}
+	var ammo map[string]any
+	total := 0
+	if c.Gun == "grpc" {
+		var b strings.Builder
+		for r := 0; r < 3; r++ {
+			for _, m := range methods {
+				fmt.Fprintf(&b, `{"tag":"good","call":"target.TargetService.Hello","payload":{"name":"fine"}}`+"\n")
+				fmt.Fprintf(&b, `{"tag":"wkt-%s","call":"verifwkt.Wkt.%s","payload":{}}`+"\n", m, m)
+				total += 2
+			}
+		}
+		path := vkit.WriteMem([]byte(b.String()))
+		defer vkit.RemoveMem(path)
+		ammo = map[string]any{"type": "grpc/json", "file": path, "passes": 1}
+	} else {
+		var calls, reqs strings.Builder
+		calls.WriteString("  - name: \"hello\"\n    tag: \"hello\"\n    call: \"target.TargetService.Hello\"\n    payload: '{\"name\": \"fine\"}'\n")
+		reqs.WriteString(`"hello"`)
+		for _, m := range methods {
+			fmt.Fprintf(&calls, "  - name: \"%s\"\n    tag: \"wkt-%s\"\n    call: \"verifwkt.Wkt.%s\"\n    payload: '{}'\n", strings.ToLower(m), m, m)
+			fmt.Fprintf(&reqs, `, "%s", "hello"`, strings.ToLower(m))
+		}
+		yaml := "calls:\n" + calls.String() + "scenarios:\n  - name: \"scn\"\n    weight: 1\n    min_waiting_time: 0\n    requests: [" + reqs.String() + "]\n"
+		base := vkit.WriteMem(nil)
+		vkit.RemoveMem(base)
+		sp := base + ".yaml"
+		_ = vkit.WriteMemAt(sp, []byte(yaml))
+		defer vkit.RemoveMem(sp)
+		total = 4 * (1 + 2*len(methods))
+		ammo = map[string]any{"type": "grpc/scenario", "file": sp, "limit": 4}
+	}
+	samples, rr, err := runPool(poolConf(ammo, map[string]any{"type": c.Gun, "target": tgt.Addr, "timeout": "5s"}, c.Instances), 120*time.Second)
+	if err != nil {
+		res.Inconclusive(true, "grpc wkt pool rejected: %v", err)
+		return
+	}
+	if rr.Hang || rr.WaitHang {
+		res.Violate(key(c, "hang"), "the run did not end within 120 s:\n"+rr.Stacks, c)
+		return
+	}
+	if rr.Err != nil {
+		res.Violate(key(c, "run-aborted"), fmt.Sprintf("methods answering with well-known types: Engine.Run returned %v", rr.Err), c)
+		return
+	}
+	bad := map[string]int{}
+	first := 0
+	for _, s := range samples {
+		if s.Proto != 200 {
+			bad[strings.Split(s.Tags, "|")[0]]++
+		}
+		if strings.HasPrefix(s.Tags, "scn.hello") {
+			first++
+		}
+	}
+	// The plain gun makes one call per entry. A scenario may end early: the scenario gun turns every
+	// response into a JSON object for later steps and gives the scenario up — after reporting the
+	// step with its status — when the response is not an object (a Timestamp is a JSON string);
+	// what this property asks is that the step is reported and the next shot starts.
+	if len(bad) > 0 || (c.Gun == "grpc" && len(samples) != total) || (c.Gun != "grpc" && first < 4) {
+		res.Violate(key(c, "sample-count"), fmt.Sprintf("%d calls, every one answered successfully by the target: %d samples (%d scenario shots started), not reported as 200: %v", total, len(samples), first, bad), c)
+	}
+	res.Count("grpc_samples", int64(len(samples)))
+	res.Eval(vkit.JSON(c), true)
+}
+
 // ---------------------------------------------------------------- gRPC behind a chaos proxy
 
 type chaosProxy struct {
@@ -1144,6 +1220,8 @@ func runCase(res *vkit.Result, p *peer, c Case) {
 		http2Case(res, c)
 	case c.Behaviour == "closed-port":
 		closedPortCase(res, c)
+	case (c.Gun == "grpc" || c.Gun == "grpc/scenario") && c.Behaviour == "wkt":
+		grpcWKTCase(res, c)
 	case c.Gun == "grpc" || c.Gun == "grpc/scenario":
 		grpcCase(res, c)
 	case c.Gun == "http/scenario" && c.Variant == "list-index":
@@ -1219,6 +1297,7 @@ func main() {
 	for _, g := range []string{"grpc", "grpc/scenario"} {
 		cases = append(cases, Case{Gun: g, Behaviour: "statuses", Instances: 2})
 		cases = append(cases, Case{Gun: g, Behaviour: "chaos", Instances: 3})
+		cases = append(cases, Case{Gun: g, Behaviour: "wkt", Instances: 2})
 		if vkit.Thorough() {
 			cases = append(cases, Case{Gun: g, Behaviour: "statuses", Instances: 8})
 			cases = append(cases, Case{Gun: g, Behaviour: "chaos", Instances: 8})
